@@ -96,6 +96,7 @@ def demoI : Interp Int where
   reduce := fun _ _ x => x
   boolT := fun b => ⟨9, 0, fun _ => 1, fun _ => if b then 1 else 0⟩
   junk := ⟨0, 0, fun _ => 1, fun _ => 0⟩
+  sym := fun _ => 3
 
 theorem demoI_laws : Laws demoI (fun _ => True) where
   cast_same := fun _ _ => rfl
@@ -115,6 +116,10 @@ theorem demoI_laws : Laws demoI (fun _ => True) where
     · funext i; cases b <;> simp [pw, maxRank, demoI]
   swish := by intro v; simp [demoI]
   swish' := by intro v; simp [demoI]
+  reshape_reshape := by intros; rfl
+  reshape_same := by intros; rfl
+  reshape_pw := by intros; rfl
+  reshape_cast := by intros; rfl
   reduce_transpose := by intros; rfl
 
 def annF32 (sh : List Nat) : Ann := ⟨some 1, some (sh.map Dim.known)⟩
